@@ -1,6 +1,6 @@
 (* C02 — proofs about the file-response model. *)
 From Coq Require Import List NArith ZArith Bool Arith Lia.
-From Baize Require Import Lib.Wire C03.Model C03.Proofs C02.Model.
+From Baize Require Import Lib.Wire Lib.Order C03.Model C03.Proofs C02.Model.
 Import ListNotations.
 
 (* ---------- list slicing ---------- *)
